@@ -337,6 +337,12 @@ pub assume_specification [usize::pow](base: usize, exp: u32) -> (r: usize)
 pub fn verif_try_into<T, const N: usize>(v: Vec<T>) -> (r: Result<[T; N], Vec<T>>)
     ensures v.len() == N ==> r is Ok && r->Ok_0@ == v@, v.len() != N ==> r is Err,
 { v.try_into() }
+/// `[X; N]::into_iter().collect::<Vec<_>>()`: the items of a by-value array iterator are the elements in index order (A-LIB-ARRAY);
+/// used by rule R17 to hold the not yet delivered items of the inner iterator of a `flat_map`
+#[verifier::external_body]
+pub fn verif_array_into_vec<X, const N: usize>(a: [X; N]) -> (r: Vec<X>)
+    ensures r@ == a@
+{ a.into_iter().collect() }
 #[verifier::external_type_specification]
 #[verifier::external_body]
 #[verifier::reject_recursive_types(F)]
